@@ -97,6 +97,10 @@ func natList(xs []int) string {
 func streamCase(s *cases.Set, pk *pkg, up bool, cs []cmd, kind string) {
 	var enc []byte
 	key := short("stream:" + pk.name + ":" + dirName(up) + ":" + cmdsKey(pk, cs))
+	if dataFragmentNotLast(pk, cs) {
+		// known finding C18-5 is identified by this key prefix
+		key = short("stream:" + pk.name + ":" + dirName(up) + ":datafragment-not-last:" + cmdsKey(pk, cs))
+	}
 	var csBefore string
 	call("print", func() error { csBefore = cmdsTerm(pk, cs); return nil })
 	err, pan, msg := call("Commands.MarshalBinary:"+key, func() error { var e error; enc, e = pk.marshal(cs); return e })
@@ -621,6 +625,11 @@ func main() {
 				streamCase(s, fwp, false, []cmd{{a.cid, a.mk(rr, inRange)}, {b.cid, b.mk(rr, inRange)}}, "corpus")
 			}
 		}
+		// audit C18 #1 (known finding C18-5): a DataFragment followed by another command
+		frp := pkgs[2]
+		streamCase(s, frp, false, []cmd{{8, mkDataFragment(1, 2, []byte{0xaa, 0xbb})}, {1, mkFragStatusReq(1, true)}}, "corpus")
+		streamCase(s, frp, false, []cmd{{8, mkDataFragment(0, 1, []byte{1, 2, 3})}, {8, mkDataFragment(0, 2, []byte{4, 5, 6})}}, "corpus")
+		streamCase(s, frp, false, []cmd{{1, mkFragStatusReq(1, true)}, {8, mkDataFragment(1, 2, []byte{0xaa, 0xbb})}}, "corpus") // last position: fine
 		streamCase(s, fwp, true, []cmd{{4, mkUpgradeAns(3, nil)}}, "corpus")
 		streamCase(s, fwp, true, []cmd{{4, mkUpgradeAns(3, u32p(262657))}}, "corpus")
 		streamCase(s, fwp, true, []cmd{{4, mkUpgradeAns(1, u32p(262657))}}, "corpus")
@@ -753,6 +762,23 @@ func main() {
 				streamCase(s, pk, up, cs, "sequence-ill-formed-"+pk.name)
 			}
 		}
+	}
+	// fragmentation downlink: in-range commands with a DataFragment that is NOT last (first, middle,
+	// several): every command is well formed on its own, the property is evaluated on them
+	for i := 0; i < 14*mult; i++ {
+		pk := pkgs[2]
+		n := 2 + r.Intn(5)
+		cs := wfStream(r, pk, false, n, inRange)
+		var dg gen
+		for _, g := range pk.gens {
+			if g.name == "DataFragment" {
+				dg = g
+			}
+		}
+		for k := 0; k < 1+i%2; k++ {
+			cs[r.Intn(n-1)] = cmd{dg.cid, dg.mk(r, inRange)}
+		}
+		streamCase(s, pk, false, cs, "sequence-datafragment-not-last")
 	}
 	streamCase(s, pkgs[0], true, nil, "sequence-empty")
 
